@@ -7,7 +7,7 @@ WHAT={
 "C01":"VP8L pixel kernels of encoder and decoder = spec functions, forward/inverse pairs inverse, predictor dispatch, add/sub-green and cross-colour loops (quantified); inverse-transform chain unpacks a packed palette out of place",
 "C02":"chunk size arithmetic; simple RIFF writers of mux and Encode (ghost byte log); writeRIFF call sites; VP8X flags of writeRIFFExtended; VP8X header of assembleExtended; VP8 frame tag / start code / dimensions / partition table of assembleFrame, emitFrame size guards; ALPH header byte",
 "C03":"decoder pixel kernels and the 14 predictors = spec; add-green and cross-colour inverse loops; palette inverse out of place",
-"C04":"inverse DCT (full, DC, AC3) and inverse WHT = RFC 6386 14.3; loop-filter primitives and clip tables = RFC 6386 15; filter strength table = 9.6/15.2; dequantisation tables and per-segment factors = 14.1/9.6; ALPH header dispatch, raw plane, horizontal unfilter row",
+"C04":"inverse DCT (full, DC, AC3) and inverse WHT = RFC 6386 14.3; loop-filter primitives and clip tables = RFC 6386 15; filter strength table = 9.6/15.2; dequantisation tables and per-segment factors = 14.1/9.6; bool decoder step (GetBit, GetBitAlt tables) = 7.3; ALPH header dispatch, raw plane, horizontal unfilter row",
 "C05":"no panic + termination: internal/container, mux (demux and writer helpers), lossless bit reader with its invariant, VP8L and ALPH header decoders, animation decoder helpers, dsp kernels under contract",
 "C06":"encoder iTransformOne = decoder transformOne = spec (all inputs), inverse WHT; encoder quantiser factors = decoder dequantiser factors = RFC; segment map off => all macroblocks in segment 0; frame header announces the partition sizes",
 "C07":"raw ALPH payload is the plane filtered as the header says; DecodeAlpha obeys the header; per-iteration rule of the three forward filters; horizontal unfilter row; palette inverse out of place (lossless alpha)",
@@ -18,7 +18,7 @@ WHAT={
 "C14":"sizes = bytes written; chunk writer byte layout; ANMF header fields written = fields parsed back (offsets/2, dims-1, duration, dispose/blend bits), ALPH/image sub-chunk; VP8X header and flags; simple layout only without ALPH chunk; ALPH-prefix convention",
 "C15":"Encode passes the caller's options unchanged to the lossless encoder on both paths; writeRIFF passes blobs unchanged; VP8X flags announce exactly the blobs present; chunk writer copies bytes",
 "C16":"DecodeConfig colour model = Decode's result type; still VP8X file has a frame; header parsers of container and demuxer agree; VP8L header decoder fields",
-"C17":"simple-format chunk fully inside the buffer; extended still file needs its image; header reads exact; lossless bit reader never reads past its buffer and raises end-of-stream",
+"C17":"simple-format chunk fully inside the buffer; extended still file needs its image; header reads exact; lossless bit reader and bool decoder loaders never read past the buffer and raise end-of-stream",
 "C18":"lossy animation frame payload = ALPH chunk (exact length, bytes, pad) + VP8 bitstream; alpha unquantised at both call sites; muxer never writes an ALPH-prefixed frame in the simple layout; similar pixels have equal alpha",
 "C19":"read footprints of imageHasAlpha and extractAlphaWith stay inside the bounds (row y, first w pixels, alpha byte)",
 "C20":"validateConfig ranges; resolve* = documented defaults; encoder/alpha-encoder configuration at the call sites",
